@@ -23,7 +23,7 @@ def run(ctx):
             ("Sim_IndexScript06.cfg", 16 if q else 200, 8)]
     res = ic.tour(ctx, sims, {"idempotence": False, "rebuild": True}, cats, "C06")
     ic.random_histories(ctx, "C06", {"reindex"})
-    ic.edit_loop(ctx, "C06", {"agreement", "rebuild", "hash", "crash", "refusal"})
+    ic.edit_loop(ctx, "C06", {"agreement", "rebuild"})
     for x in res[:2]:
         ctx.sample({"behaviour": x["actions"], "commands": x["commands"]})
     ic.finish(ctx, "behaviours = random walks of the TLC simulator over Index.tla with the full edit alphabet and explicit-path "
